@@ -23,7 +23,8 @@ META = {
     "rule": (
         "inputs: file contents (UTF-8 bytes) -- G1 programs (ASCII and non-ASCII), corpus statements, xonsh seeds, C11's targeted syntax errors "
         "in generated layouts, G10 programs (triple-quoted tokens of 2..6 lines inside rejected constructs with a known range, f-string debug fields "
-        "laid out over several lines, followed by errors whose diagnosis spans lines), G7 f-string statements, G4 mutations; newline conventions LF / CRLF / lone CR / mixed, with and without final newline; each file is "
+        "laid out over several lines, followed by errors whose diagnosis spans lines), G7 f-string statements, G4 mutations; a fifth of the inputs "
+        "gets a character str.splitlines() would split at (FF, VT, FS/GS/RS, NEL, U+2028/9) as a line of its own or at a random position; newline conventions LF / CRLF / lone CR / mixed, with and without final newline; each file is "
         "parsed by parse_file(path) and by parse_string(bytes.decode('utf-8'), mode='exec') inside child interpreters started in 5 process "
         "environments {LC_ALL=C.UTF-8; LC_ALL=C; LC_ALL=C PYTHONCOERCECLOCALE=0 PYTHONUTF8=0 (ASCII preferred encoding); -X utf8=1; -X utf8=0}.  "
         "Oracle: inside each child the two canonical outcomes (tree dump with positions / exception class, message, line, column, end, text) are "
@@ -179,6 +180,18 @@ def search(rec, ctx):
             stream = "mutation"
         if rnd.random() < 0.15:
             src = src.replace("x", "é", 1).replace("'s'", "'日本'", 1)
+        if rnd.random() < 0.2:
+            # characters that str.splitlines() takes for line ends but the tokenizer, readline and CPython do not:
+            # as a page-break line of their own between two lines, or anywhere in the text (strings, comments, code)
+            sep = rnd.choice(["\x0c", "\x0c", "\x0b", "\x1c", "\x1d", "\x1e", "\x85", "\u2028", "\u2029"])
+            nls = [i for i, ch in enumerate(src) if ch == "\n"]
+            if nls and rnd.random() < 0.5:
+                i = rnd.choice(nls) + 1
+                src = src[:i] + sep + "\n" + src[i:]
+            else:
+                i = rnd.randrange(len(src) + 1)
+                src = src[:i] + sep + src[i:]
+            stream += "+separator-char"
         src = newline_variant(rnd, src)
         if "\x00" in src:
             return
